@@ -115,6 +115,9 @@ inductive Inl
   | literal (s : String)
   | role (markup : String) (label : Option String) (target : String) (spec : RoleSpec)
   | extref (label uri : String)        -- `label <uri>`_
+  | footref (name : String)            -- [#name]_
+  | subref (name : String)             -- |name|
+  | namedref (name : String)           -- `name`_
   deriving Repr
 
 def inlSrc : Inl → String
@@ -128,6 +131,9 @@ def inlSrc : Inl → String
   | .role m (some l) t _ => ":" ++ m ++ ":`" ++ l ++ " <" ++ t ++ ">`"
   | .role m none t _ => ":" ++ m ++ ":`" ++ t ++ "`"
   | .extref l u => "`" ++ l ++ " <" ++ u ++ ">`_"
+  | .footref n => "[#" ++ n ++ "]_"
+  | .subref n => "|" ++ n ++ "|"
+  | .namedref n => "`" ++ n ++ "`_"
 
 /-- source lines of an inline sequence (`nl` starts a new line); never empty -/
 def inlLines : List Inl → String → List String
@@ -172,6 +178,9 @@ def inlTok : Inl → Tok
   | .extref l u =>
     .n [.mk "reference" [("refuri", .str u)] none [textNode l],
         leaf "named_reference" [("refname", .str l), ("refuri", .str u)]]
+  | .footref nm => .n [leaf "footnote_reference" [("refname", .str nm)]]
+  | .subref nm => .n [leaf "substitution_reference" [("name", .str nm)]]
+  | .namedref nm => .n [.mk "reference" [("refname", .str nm)] none [textNode nm]]
 
 /-- adjacent character data becomes one text node -/
 def mergeToks : List Tok → String → List ENode
@@ -195,6 +204,9 @@ def inlText : Inl → String
   | .role _ none t sp =>
     if sp.kind = "text" then t else if sp.kind = "explicit_title" then "" else if sp.kind = "ref" then "" else t
   | .extref l _ => l
+  | .footref _ => ""
+  | .subref _ => ""
+  | .namedref n => n
 
 def inlsText : List Inl → String
   | [] => ""
@@ -257,6 +269,11 @@ inductive Blk
   | directive (name domain : String) (arg : List Inl) (opts : List (String × String × Val)) (kids : List Blk)
   | code (dirname : String) (lang : Option String) (opts : List (String × String × Val))
       (attrs : List (String × Val)) (lines : List String)
+  | transition (style : Char) (len : Nat)                     -- a line of `len` adornment characters
+  | footnote (name : String) (kids : List Blk)                -- `.. [#name] first paragraph` + indented blocks
+  | substdef (name : String) (xs : List Inl)                  -- `.. |name| replace:: inline text`
+  | blocksub (name : String)                                  -- a paragraph that is nothing but `|name|`
+  | namedtarget (name uri : String)                           -- `.. _name: uri`
   deriving Repr
 
 inductive SeqMode
@@ -365,6 +382,26 @@ mutual
           ([("lang", match lang with | some l => Val.str l | none => Val.null),
             ("value", .str (String.intercalate "\n" ls))] ++ attrs)
           (some (start, l0)) []]⟩
+    | .transition style len =>
+      let l := repeatChar style len
+      ⟨[l], [.mk "transition" [] (some (start, l)) []]⟩
+    | .footnote name kids =>
+      let ind := spaces ℓ.bodyIndent
+      let first := ".. [#" ++ name ++ "] "
+      let k := emitSeq ℓ SeqMode.blocks start kids
+      let lines := prefixLines ℓ.padBlank first ind k.lines
+      ⟨(if lines.isEmpty then [".. [#" ++ name ++ "]"] else lines),
+       [.mk "footnote" [("name", .str name)] (some (start, headLine (if lines.isEmpty then [".. [#" ++ name ++ "]"] else lines)))
+          (mapClaimsList start (pfxAt ℓ.padBlank first ind) k.nodes)]⟩
+    | .substdef name xs =>
+      let l := ".. |" ++ name ++ "| replace:: " ++ concatSrc xs
+      ⟨[l], [.mk "substitution_definition" [("name", .str name)] (some (start, l)) (inlNodes xs)]⟩
+    | .blocksub name =>
+      let l := "|" ++ name ++ "|"
+      ⟨[l], [.mk "substitution_reference" [("name", .str name)] (some (start, l)) []]⟩
+    | .namedtarget name uri =>
+      let l := ".. _" ++ name ++ ": " ++ uri
+      ⟨[l], [.mk "named_reference" [("refname", .str name), ("refuri", .str uri)] (some (start, l)) []]⟩
 
   /-- a sequence of blocks / list items / definition items starting at line `start` -/
   def emitSeq (ℓ : Layout) (mode : SeqMode) (start : Nat) : List Blk → Out
